@@ -16,8 +16,11 @@ theorem CStep.not_final {fo : FloatOps} {kb : KB} {a b : CConf} (h : CStep fo kb
   intro hf
   cases h <;> rcases hf with hf | ⟨_, _, hf⟩ <;> cases hf
 
+theorem no_step_from_empty {fo : FloatOps} {kb : KB} {c : Nat} {o : List String} {b : CConf} (h : CStep fo kb ⟨[], c, o⟩ b) : False := by
+  cases h
+
 theorem CStep.det {fo : FloatOps} {kb : KB} {a b : CConf} (h : CStep fo kb a b) : ∀ {b'}, CStep fo kb a b' → b = b' := by
-  cases h with
+  induction h with
   | call hk => intro b' h'; cases h' with | call hk' => rw [hk] at hk'; cases hk'; rfl
   | @bipOk name args bb k σ σ' S c o f txt hn hr =>
     intro b' h'
@@ -74,6 +77,40 @@ theorem CStep.det {fo : FloatOps} {kb : KB} {a b : CConf} (h : CStep fo kb a b) 
   | commitGroup => intro b' h'; cases h'; rfl
   | endBody => intro b' h'; cases h'; rfl
   | commitBody => intro b' h'; cases h'; rfl
+  | notEnter => intro b' h'; cases h'; rfl
+  | notIn hs ih =>
+    intro b' h'
+    cases h' with
+    | notIn hs' => have := ih hs'; cases this; rfl
+    | notOk => exact (no_step_from_empty hs).elim
+    | notFail => exact absurd (Or.inr ⟨_, _, rfl⟩) hs.not_final
+  | notOk =>
+    intro b' h'
+    cases h' with
+    | notIn hs' => exact (no_step_from_empty hs').elim
+    | notOk => rfl
+  | notFail =>
+    intro b' h'
+    cases h' with
+    | notIn hs' => exact absurd (Or.inr ⟨_, _, rfl⟩) hs'.not_final
+    | notFail => rfl
+  | timeEnter => intro b' h'; cases h'; rfl
+  | timeIn hs ih =>
+    intro b' h'
+    cases h' with
+    | timeIn hs' => have := ih hs'; cases this; rfl
+    | timeNone => exact (no_step_from_empty hs).elim
+    | timeSome => exact absurd (Or.inr ⟨_, _, rfl⟩) hs.not_final
+  | timeNone =>
+    intro b' h'
+    cases h' with
+    | timeIn hs' => exact (no_step_from_empty hs').elim
+    | timeNone => rfl
+  | timeSome =>
+    intro b' h'
+    cases h' with
+    | timeIn hs' => exact absurd (Or.inr ⟨_, _, rfl⟩) hs'.not_final
+    | timeSome => rfl
 
 /-- two silent runs from one configuration that both end where nothing is left to do end in the same place -/
 theorem CSteps.det {fo : FloatOps} {kb : KB} {a b : CConf} (h : CSteps fo kb a b) :
@@ -125,6 +162,56 @@ theorem CRun.det {fo : FloatOps} {kb : KB} {c : CConf} {tr : List (Option Subst 
 /-! ### knowledge bases of the fragment -/
 
 mutual
+theorem renameGoal_nc : (g : Goal) → (st : RenSt) → (r : Goal × RenSt) → renameGoal g st = .ok r → ncG g = true → ncG r.1 = true
+  | .call (.cplx args), st, r, h, _ => by simp only [renameGoal] at h; cases h; rfl
+  | .call .nil, _, r, h, _ => by simp [renameGoal] at h
+  | .call .anon, _, r, h, _ => by simp [renameGoal] at h
+  | .call (.atom _), _, r, h, _ => by simp [renameGoal] at h
+  | .call (.flt _), _, r, h, _ => by simp [renameGoal] at h
+  | .call (.int _), _, r, h, _ => by simp [renameGoal] at h
+  | .call (.var _ _), _, r, h, _ => by simp [renameGoal] at h
+  | .call (.cons _ _ _ _), _, r, h, _ => by simp [renameGoal] at h
+  | .call (.func _ _), _, r, h, _ => by simp [renameGoal] at h
+  | .bip name (some args), st, r, h, hp => by simp only [renameGoal] at h; cases h; simpa [ncG] using hp
+  | .bip name none, st, r, h, hp => by simp only [renameGoal] at h; cases h; simpa [ncG] using hp
+  | .and gs, st, r, h, hp => by
+    simp only [renameGoal] at h
+    obtain ⟨x, hx, h⟩ := Res.bind_eq_ok.mp h
+    cases h
+    simp only [ncG] at hp ⊢
+    exact renameGoals_nc gs st x hx hp
+  | .or gs, st, r, h, hp => by
+    simp only [renameGoal] at h
+    obtain ⟨x, hx, h⟩ := Res.bind_eq_ok.mp h
+    cases h
+    simp only [ncG] at hp ⊢
+    exact renameGoals_nc gs st x hx hp
+  | .time gs, st, r, h, hp => by
+    simp only [renameGoal] at h
+    obtain ⟨x, hx, h⟩ := Res.bind_eq_ok.mp h
+    cases h
+    simp only [ncG] at hp ⊢
+    exact renameGoals_nc gs st x hx hp
+  | .not gs, st, r, h, hp => by
+    simp only [renameGoal] at h
+    obtain ⟨x, hx, h⟩ := Res.bind_eq_ok.mp h
+    cases h
+    simp only [ncG] at hp ⊢
+    exact renameGoals_nc gs st x hx hp
+  | .nil, _, r, h, _ => by simp [renameGoal] at h
+theorem renameGoals_nc : (gs : GoalList) → (st : RenSt) → (r : GoalList × RenSt) → renameGoals gs st = .ok r →
+    ncGL gs = true → ncGL r.1 = true
+  | .nil, st, r, h, _ => by simp only [renameGoals] at h; cases h; rfl
+  | .cons g gs, st, r, h, hp => by
+    simp only [renameGoals] at h
+    obtain ⟨x1, hx1, h⟩ := Res.bind_eq_ok.mp h
+    obtain ⟨x2, hx2, h⟩ := Res.bind_eq_ok.mp h
+    cases h
+    simp only [ncGL, Bool.and_eq_true] at hp ⊢
+    exact ⟨renameGoal_nc g st x1 hx1 hp.1, renameGoals_nc gs x1.2 x2 hx2 hp.2⟩
+end
+
+mutual
 theorem renameGoal_ok : (g : Goal) → (st : RenSt) → (r : Goal × RenSt) → renameGoal g st = .ok r → okG g = true → okG r.1 = true
   | .call (.cplx args), st, r, h, _ => by simp only [renameGoal] at h; cases h; rfl
   | .call .nil, _, r, h, _ => by simp [renameGoal] at h
@@ -151,8 +238,20 @@ theorem renameGoal_ok : (g : Goal) → (st : RenSt) → (r : Goal × RenSt) → 
     simp only [okG, Bool.and_eq_true] at hp ⊢
     have := renameGoals_ok gs st x hx hp.2
     exact ⟨by rw [this.2]; exact hp.1, this.1⟩
-  | .time _, _, _, _, hp => by simp [okG] at hp
-  | .not _, _, _, _, hp => by simp [okG] at hp
+  | .time gs, st, r, h, hp => by
+    simp only [renameGoal] at h
+    obtain ⟨x, hx, h⟩ := Res.bind_eq_ok.mp h
+    cases h
+    simp only [okG, Bool.and_eq_true] at hp ⊢
+    have := renameGoals_ok gs st x hx hp.1.2
+    exact ⟨⟨by rw [this.2]; exact hp.1.1, this.1⟩, renameGoals_nc gs st x hx hp.2⟩
+  | .not gs, st, r, h, hp => by
+    simp only [renameGoal] at h
+    obtain ⟨x, hx, h⟩ := Res.bind_eq_ok.mp h
+    cases h
+    simp only [okG, Bool.and_eq_true] at hp ⊢
+    have := renameGoals_ok gs st x hx hp.1.2
+    exact ⟨⟨by rw [this.2]; exact hp.1.1, this.1⟩, renameGoals_nc gs st x hx hp.2⟩
   | .nil, _, _, _, hp => by simp [okG] at hp
 theorem renameGoals_ok : (gs : GoalList) → (st : RenSt) → (r : GoalList × RenSt) → renameGoals gs st = .ok r →
     okGL gs = true → okGL r.1 = true ∧ r.1.length = gs.length
@@ -196,13 +295,23 @@ theorem renameRule_ok (r : Rule) (st : RenSt) (x : Rule × RenSt) (h : renameRul
       have := renameGoals_ok gs _ b hbb hp.2
       exact ⟨by rw [this.2]; exact hp.1, this.1⟩
   · rename_i gs hb
+    obtain ⟨b, hbb, h⟩ := Res.bind_eq_ok.mp h
+    cases h; right
     rcases hp with hp | hp
     · rw [hb] at hp; cases hp
-    · rw [hb] at hp; simp [okG] at hp
+    · rw [hb] at hp
+      simp only [okG, Bool.and_eq_true] at hp ⊢
+      have := renameGoals_ok gs _ b hbb hp.1.2
+      exact ⟨⟨by rw [this.2]; exact hp.1.1, this.1⟩, renameGoals_nc gs _ b hbb hp.2⟩
   · rename_i gs hb
+    obtain ⟨b, hbb, h⟩ := Res.bind_eq_ok.mp h
+    cases h; right
     rcases hp with hp | hp
     · rw [hb] at hp; cases hp
-    · rw [hb] at hp; simp [okG] at hp
+    · rw [hb] at hp
+      simp only [okG, Bool.and_eq_true] at hp ⊢
+      have := renameGoals_ok gs _ b hbb hp.1.2
+      exact ⟨⟨by rw [this.2]; exact hp.1.1, this.1⟩, renameGoals_nc gs _ b hbb hp.2⟩
 
 /-- a knowledge base whose stored rules are facts or have bodies in the fragment hands out only such clauses -/
 theorem okKB_of_rules (kb : KB)
@@ -251,8 +360,11 @@ def kOK : List CG → Nat → Prop
 def frameK : CFrame → List CG
   | .goals k _ => k
   | .try _ _ _ _ k => k
+  | .notF _ _ k => k
+  | .timeF _ k => k
 
-/-- every frame's continuation is well-formed for the height the frame stands at -/
+/-- every frame's continuation is well-formed for the height the frame stands at (the stacks held by `notF` / `timeF`
+    frames are searches of their own, started from `CWF.init`: the same statement holds of each of them) -/
 def CWF : List CFrame → Prop
   | [] => True
   | fr :: S => kOK (frameK fr) S.length ∧ CWF S
@@ -350,6 +462,14 @@ theorem CStep.wf {fo : FloatOps} {kb : KB} {a b : CConf} (h : CStep fo kb a b) (
     refine ⟨?_, hw.2.truncate h⟩
     rw [truncate_length S h hb]
     exact hw.1.2
+  | notEnter => exact ⟨kOK.tail hw.1, hw.2⟩
+  | notIn _ => exact ⟨hw.1, hw.2⟩
+  | notOk => exact ⟨hw.1, hw.2⟩
+  | notFail => exact hw.2
+  | timeEnter => exact ⟨kOK.tail hw.1, hw.2⟩
+  | timeIn _ => exact ⟨hw.1, hw.2⟩
+  | timeNone => exact hw.2
+  | timeSome => exact ⟨hw.1, hw.2⟩
 
 theorem CSteps.wf {fo : FloatOps} {kb : KB} {a b : CConf} (h : CSteps fo kb a b) (hw : CWF a.stack) : CWF b.stack := by
   induction h with
@@ -427,6 +547,24 @@ theorem CStep.keeps_bottom {fo : FloatOps} {kb : KB} {fr : CFrame} {X S0 : List 
     simp only [List.length_cons] at hl
     obtain ⟨X', e⟩ := truncate_keeps_bottom X S0 hh (by omega)
     exact ⟨_, X', by rw [e]⟩
+  | notEnter => cases ha; exact ⟨_, X, rfl⟩
+  | notIn _ => cases ha; exact ⟨_, X, rfl⟩
+  | notOk => cases ha; exact ⟨_, X, rfl⟩
+  | notFail =>
+    cases ha
+    simp only at hl ⊢
+    cases X with
+    | nil => simp at hl
+    | cons x X => exact ⟨x, X, rfl⟩
+  | timeEnter => cases ha; exact ⟨_, X, rfl⟩
+  | timeIn _ => cases ha; exact ⟨_, X, rfl⟩
+  | timeSome => cases ha; exact ⟨_, X, rfl⟩
+  | timeNone =>
+    cases ha
+    simp only at hl ⊢
+    cases X with
+    | nil => simp at hl
+    | cons x X => exact ⟨x, X, rfl⟩
   | bipFail _ _ =>
     cases ha
     simp only at hl ⊢
